@@ -115,7 +115,11 @@ func alphabet(n int) []event {
 func enumerate() []history {
 	th := ev.Thorough()
 	var out []history
-	for _, n := range []int{1, 2, 3} {
+	sizes := []int{1, 2, 3}
+	if th {
+		sizes = []int{1, 2, 3, 4}
+	}
+	for _, n := range sizes {
 		maxLen := 2
 		if th {
 			maxLen = 3
@@ -149,6 +153,34 @@ func enumerate() []history {
 			}
 		}
 		rec(nil)
+		if th && n == 2 {
+			// length 4 over the membership events only
+			var mem []event
+			for _, e := range al {
+				if e.Kind != "pin" && e.Kind != "unpin" && e.Kind != "updpin" {
+					mem = append(mem, e)
+				}
+			}
+			var rec4 func(p []event)
+			rec4 = func(p []event) {
+				if len(p) == 4 {
+					joins := 0
+					for _, e := range p {
+						if e.Kind == "join" {
+							joins++
+						}
+					}
+					if joins <= 2 {
+						out = append(out, history{n, append([]event{{Kind: "pin", At: "L", C: 0}}, p...)})
+					}
+					return
+				}
+				for _, e := range mem {
+					rec4(append(p, e))
+				}
+			}
+			rec4(nil)
+		}
 		if !th {
 			// quick: pins first, then every membership event (the pinset must survive)
 			for _, e := range al {
@@ -605,7 +637,7 @@ func run(t *testing.T, h history) (outcome string, viol []finding, states map[st
 	outcome = "ok"
 	clus.Bubble(t, func(t *testing.T) {
 		ctx := context.Background()
-		_, hosts := clus.NewMocknet(ctx, 0, 5)
+		_, hosts := clus.NewMocknet(ctx, 0, 7)
 		w := &world{ctx: ctx, t: t, hosts: hosts, store: metrics.NewStore(), scratch: scratch, refSet: map[peer.ID]bool{}, refPins: map[string]string{}, states: map[string]bool{}, next: h.N}
 		var ids []peer.ID
 		for i := 0; i < h.N; i++ {
@@ -672,6 +704,9 @@ func TestHistories(t *testing.T) {
 		t.Skip()
 	}
 	hs := enumerate()
+	if os.Getenv("C17_COUNT") != "" {
+		fmt.Println("COUNT", len(hs))
+	}
 	if ev.ChildUnit() == "" {
 		var units []string
 		for i := 0; i < nUnits(); i++ {
